@@ -308,6 +308,15 @@ func qrAlgorithm(inSitu *InSitu, epsilon float64) (Matrix, Matrix, error) {
   // overflow or epsilon is smaller than the machine precision permits)
   maxIterations := 10000 + 1000*n*n
 
+  // largest element of H
+  hnorm := 0.0
+  for i := 0; i < n; i++ {
+    for j := 0; j < n; j++ {
+      if t := math.Abs(h.ConstAt(i,j).GetFloat64()); t > hnorm {
+        hnorm = t
+      }
+    }
+  }
   // apply Francis QR steps
   for p, q, k := 0, 0, 0; q < n-1; k++ {
 
@@ -319,7 +328,10 @@ func qrAlgorithm(inSitu *InSitu, epsilon float64) (Matrix, Matrix, error) {
       h11 := h.ConstAt(i  ,i  ).GetFloat64()
       h21 := h.ConstAt(i+1,i  ).GetFloat64()
       h22 := h.ConstAt(i+1,i+1).GetFloat64()
-      if math.Abs(h21) <= epsilon*(math.Abs(h11) + math.Abs(h22)) {
+      // (a subdiagonal element is also negligible if it is small compared to
+      // the whole matrix: rounding errors of that size are committed in every
+      // step, so it may never become small compared to its neighbors)
+      if math.Abs(h21) <= epsilon*(math.Abs(h11) + math.Abs(h22)) || math.Abs(h21) <= epsilon*hnorm {
         h.At(i+1,i).SetFloat64(0.0)
       }
     }
